@@ -574,6 +574,96 @@ func main() {
 		facts = append(facts, fact{"ffTrustedSets", "def ffTrustedSets : List TrustSrc := [" + strings.Join(srcs, ", ") + "]", "core.go:checkTrustedSigner", strings.Join(texts, " "), len(srcs) > 0})
 	}
 
+	// database and wire forms of an event: which fields are written, which are read back
+	{
+		evf := parse(filepath.Join(repo, "src/hashgraph/event.go"))
+		leanPairs := func(l [][2]string) string {
+			ps := []string{}
+			for _, p := range l {
+				ps = append(ps, fmt.Sprintf("(%q, %q)", p[0], p[1]))
+			}
+			return "[" + strings.Join(ps, ", ") + "]"
+		}
+		structFields := func(name string) []string {
+			res := []string{}
+			for _, d := range evf.Decls {
+				gd, ok := d.(*ast.GenDecl)
+				if !ok {
+					continue
+				}
+				for _, sp := range gd.Specs {
+					ts, ok := sp.(*ast.TypeSpec)
+					if !ok || ts.Name.Name != name {
+						continue
+					}
+					if st, ok := ts.Type.(*ast.StructType); ok {
+						for _, f := range st.Fields.List {
+							for _, n := range f.Names {
+								res = append(res, n.Name)
+							}
+						}
+					}
+				}
+			}
+			return res
+		}
+		literal := func(fn *ast.FuncDecl, typ string) [][2]string {
+			res := [][2]string{}
+			if fn == nil {
+				return res
+			}
+			ast.Inspect(fn, func(n ast.Node) bool {
+				cl, ok := n.(*ast.CompositeLit)
+				if !ok || src(cl.Type) != typ {
+					return true
+				}
+				for _, el := range cl.Elts {
+					if kv, ok := el.(*ast.KeyValueExpr); ok {
+						if _, nested := kv.Value.(*ast.CompositeLit); nested {
+							continue
+						}
+						res = append(res, [2]string{src(kv.Key), src(kv.Value)})
+					}
+				}
+				return true
+			})
+			sort.Slice(res, func(i, j int) bool { return res[i][0] < res[j][0] })
+			return res
+		}
+		quoteList := func(l []string) string {
+			q := []string{}
+			for _, x := range l {
+				q = append(q, fmt.Sprintf("%q", x))
+			}
+			return "[" + strings.Join(q, ", ") + "]"
+		}
+		ws := structFields("eventWrapper")
+		sort.Strings(ws)
+		facts = append(facts, fact{"eventDBStruct", "def eventDBStruct : List String := " + quoteList(ws), "event.go:eventWrapper", strings.Join(ws, " "), len(ws) > 0})
+		written := literal(findFunc(evf, "Event", "MarshalDB"), "eventWrapper")
+		facts = append(facts, fact{"eventDBWritten", "def eventDBWritten : List (String × String) := " + leanPairs(written), "event.go:MarshalDB", fmt.Sprint(written), len(written) > 0})
+		read := [][2]string{}
+		if fn := findFunc(evf, "Event", "UnmarshalDB"); fn != nil {
+			ast.Inspect(fn, func(n ast.Node) bool {
+				as, ok := n.(*ast.AssignStmt)
+				if !ok || len(as.Lhs) != 1 || len(as.Rhs) != 1 {
+					return true
+				}
+				if se, ok := as.Rhs[0].(*ast.SelectorExpr); ok && src(se.X) == "wrapper" {
+					read = append(read, [2]string{se.Sel.Name, src(as.Lhs[0])})
+				}
+				return true
+			})
+		}
+		sort.Slice(read, func(i, j int) bool { return read[i][0] < read[j][0] })
+		facts = append(facts, fact{"eventDBRead", "def eventDBRead : List (String × String) := " + leanPairs(read), "event.go:UnmarshalDB", fmt.Sprint(read), len(read) > 0})
+		wb := structFields("WireBody")
+		sort.Strings(wb)
+		facts = append(facts, fact{"wireBodyStruct", "def wireBodyStruct : List String := " + quoteList(wb), "event.go:WireBody", strings.Join(wb, " "), len(wb) > 0})
+		ww := literal(findFunc(evf, "Event", "ToWire"), "WireBody")
+		facts = append(facts, fact{"wireBodyWritten", "def wireBodyWritten : List (String × String) := " + leanPairs(ww), "event.go:ToWire", fmt.Sprint(ww), len(ww) > 0})
+	}
+
 	// emit
 	var b strings.Builder
 	b.WriteString("-- GENERATED by /verif/extract from the Go sources of the repository under verification.\n")
